@@ -70,7 +70,7 @@ theorem header_roundtrip : ∀ f0 f1 f2 : Bool,
 theorem glue_pinned :
     Gen.pinReadPatchData = "d790de7baed0475a" ∧ Gen.pinPatchWriter = "d004ce4ac7f62d59" ∧
     Gen.pinGroupby = "26ee2f474530068a" ∧ Gen.pinSplitIntoPatches = "d3f24646fbf4ed14" ∧
-    Gen.pinWriteUnthreaded = "8a5acea113c96fa9" ∧ Gen.pinFinalize = "48d74339a214e0d7" ∧
+    Gen.pinWriteUnthreaded = "8a5acea113c96fa9" ∧ Gen.pinFinalize = "41316e5c2cde1ada" ∧
     Gen.pinWritePatchesMP = "46c840d17381bc14" := by decide
 
 /-! non-vacuity -/
